@@ -261,6 +261,7 @@ def run(P, C, tier):
         C.anchor_missing("R6", "init_allowed_peers", e)
     r8_whole_row_writes(P, C)
     r9_strict_verification(P, C)
+    r10_peer_row_gate(P, C, "R10")
 
 
 SIGNED_TABLES = ("_node", "_edge", "_node_deletion_log", "_edge_deletion_log")
@@ -356,3 +357,40 @@ def r9_strict_verification(P, C):
         strict = re.search(r"::verify_strict$", t["nf"]) is not None or re.search(r"::verify_strict$", t.get("nrf") or "") is not None
         C.ob("R9", "strict-verification:%s#%d" % (short(b.id), n), strict, b.loc(bi),
              "%s calls %s" % (short(b.id), t["nf"]) + ("" if strict else " -- the non-strict check: the key [type, 0x01, 0x00 x31] with signature [0x01, 0x00 x63] verifies for any row content"))
+
+
+def r10_peer_row_gate(P, C, R):
+    """A peer row (sys.Peer) received in an identity proof or an invitation does not go through the batch verification service:
+    Peer::validate is its only gate (C02-R1 and C19-R1 rely on it dominating the writes). The gate must verify the signature of
+    the row it is given: no Ok return is reachable unless Node::verify was called on the parameter and answered Ok."""
+    C.rule(R, "Peer::validate verifies the signature of the row: every path to Ok passes the Ok edge of Node::verify on the parameter, "
+              "so a peer row received from the network is stored (and relayed) only with a signature that verifies against it")
+    try:
+        b = P.body("system_entities::Peer::validate")
+    except mir.MissingAnchor as e:
+        C.anchor_missing(R, "Peer::validate", e)
+        return
+    C.saw(b)
+    row = b.the_local("the row under validation", ty=r"node::Node$", param=True)
+    vs = [(bi, t) for bi, t in b.calls_to(r"database::node::Node::verify$") if mir.full_path(b, b.call_args(bi)[0]).split(".")[0] == row]
+    oks = set(mir.return_assignments(b)["Ok"])
+    avoid = set()
+    tested = 0
+    for bi, t in vs:
+        re_ = mir.result_edges_any(b, bi)
+        if re_ is None:
+            # `peer.verify().map_err(|_| ..)?`: the mapped result carries the same Ok/Err
+            for mi, mt in b.calls_to(r"Result<.*>::(map_err|or|or_else)$|Result::(map_err)$"):
+                a0 = mir.strip_refs(b.call_args(mi, expand_vars=True)[0])
+                if a0[0] == "call" and a0[3] == bi and callee_name(mt).endswith("map_err"):
+                    re_ = mir.result_edges_any(b, mi)
+        if re_ is not None and "ok" in re_:
+            tested += 1
+            avoid.add((re_["switch"], re_["ok"]))
+    reach = b.reachable(0, avoid_edges=avoid) if avoid else set(b.live_blocks())
+    leak = sorted(oks & set(reach))
+    ok = bool(vs) and tested == len(vs) and bool(oks) and not leak
+    C.ob(R, "peer-row-gate:verify", ok, b.loc(vs[0][0]) if vs else b.loc(),
+         "%d call(s) of Node::verify on the parameter, %d with a tested result; Ok returns reachable without its Ok edge: %s%s" % (
+             len(vs), tested, [b.loc(x) for x in leak] or "none",
+             "" if ok else " -- a peer row with a signature that does not verify is accepted from an identity proof or an invitation, stored and relayed"))
